@@ -350,8 +350,22 @@ def _case(arg):
         return res.as_dict()
     ref = closed_form(name, n, kw)
     if ref is not None and not _representable(ref):
-        res.inadm()  # the defining formula itself leaves float64 for this parameter combination
-        res.note("inadmissible: defining node map rounds to equal/non-finite doubles: " + tag.split("(")[0])
+        # the defining node map rounds to coinciding doubles for this parameter combination (e.g. tanh-sinh nodes that are
+        # 1.0 to machine precision): strict ordering and node-by-node comparison are not decidable, but the grid must
+        # still have n finite nodes and weights inside its domain, in non-descending order (seeded change C01-J returned
+        # nan there)
+        pts, w = np.asarray(g.points, dtype=float), np.asarray(g.weights, dtype=float)
+        res.count()
+        fx_ok = np.array([np.isfinite(float(v)) for v in ref[0]]) & np.array([np.isfinite(float(v)) for v in ref[1]])
+        if pts.shape != (n,) or w.shape != (n,):
+            res.violation(f"{tag}:wrong-number-of-nodes", f"{tag} n={n}: points {pts.shape}, weights {w.shape}", case)
+        elif np.all(fx_ok) and not (np.all(np.isfinite(pts)) and np.all(np.isfinite(w))):
+            res.violation(f"{tag}:non-finite", f"{tag} n={n}: {int(np.sum(~np.isfinite(pts)))} non-finite nodes, "
+                          f"{int(np.sum(~np.isfinite(w)))} non-finite weights where the definition is finite", case)
+        elif np.all(np.isfinite(pts)) and (np.any(np.diff(pts) < 0) or pts.min() < g.domain[0] - 1e-12 or pts.max() > g.domain[1] + 1e-12):
+            res.violation(f"{tag}:nodes-not-ascending", f"{tag} n={n}: nodes descend or leave the domain", case)
+        res.inadm()
+        res.note("inadmissible for node-by-node comparison: defining node map rounds to equal/non-finite doubles: " + tag.split("(")[0])
         return res.as_dict()
     if not _structure(res, tag, case, g, n, name):
         return res.as_dict()
